@@ -52,7 +52,7 @@ Proof. exact (gate_with_independent is_preemptible_job is_preemptible_job_reads_
 (** changing nothing but the priority of a job does not change a verdict *)
 Definition with_prio (j : job) (p : Z) : job :=
   {| j_uid := j_uid j; j_queue := j_queue j; j_prio := p; j_subgroups := j_subgroups j;
-     j_ctime := j_ctime j; j_shape := j_shape j; j_pre := j_pre j; j_req := j_req j |}.
+     j_ctime := j_ctime j; j_shape := j_shape j; j_pre := j_pre j; j_req := j_req j; j_last_start := j_last_start j |}.
 
 Lemma gate_ignores_priority_proof :
   forall st j p, job_over_queue_capacity st (with_prio j p) = job_over_queue_capacity st j
@@ -223,7 +223,7 @@ Definition gw_st : qstate :=
                      {| rs_deserved := 1000; rs_max_allowed := -1; rs_allocated := 1000; rs_allocated_np := 1000 |}] |} ].
 Definition gw_job (uid prio : Z) : job :=
   {| j_uid := uid; j_queue := 1; j_prio := prio; j_subgroups := [(0, 1)]; j_ctime := 0; j_shape := 0;
-     j_pre := PPreemptible; j_req := [0; 0; 1000] |}.
+     j_pre := PPreemptible; j_req := [0; 0; 1000]; j_last_start := None |}.
 (** both say "preemptible" explicitly; [gw_a] has priority 125, [gw_b] priority 50 *)
 Definition gw_a : job := gw_job 1 125.
 Definition gw_b : job := gw_job 2 50.
